@@ -100,15 +100,19 @@ def run(facts, rep):
             continue
         rep.saw(b)
         tables = []
-        for p in SymEx(b, max_paths=20000).run():
+        from symex import subterms as _subterms
+        for p in SymEx(b, havoc_loops=True, max_paths=20000).run():
             for e in p.calls():
-                if e.name.split('::')[-1] == 'map' and e.args:
-                    try:
-                        v = lit(e.args[0])
-                    except ValueError:
-                        continue
-                    if isinstance(v, list) and v and v not in tables:
-                        tables.append(v)
+                # the literal table wherever it is consumed (`.map(..)`, a `for` over it, a helper that builds the pairs)
+                for a_ in e.args:
+                    for y in _subterms(a_):
+                        if isinstance(y, tuple) and y and y[0] == 'agg' and y[1] == 'array' and len(y[2]) == 4:
+                            try:
+                                v = lit(y)
+                            except (ValueError, KeyError, IndexError, TypeError):
+                                continue
+                            if isinstance(v, list) and v and all(isinstance(r_, (list, tuple)) and len(r_) == 2 for r_ in v) and v not in tables:
+                                tables.append(v)
         inst = '%s|literal key table is the %s' % (B + nm, 'coordinate swap (an involution)' if kind == 'swap' else 'identity')
         good = False
         if kind == 'swap':
@@ -121,6 +125,8 @@ def run(facts, rep):
                     pass
             if good:
                 rep.ok('E7b.K3-key-tables', inst, str(tables))
+            elif not tables:
+                rep.indet('E7b.K3: no literal key table found in %s' % nm)
             else:
                 rep.violation('E7b.K3-key-tables', inst, 'the key table of an off-axis crossing pair is %s; tau must exchange the two resolution bits' % tables, where=b.where())
         else:
@@ -132,10 +138,19 @@ def run(facts, rep):
                         r = q.ret
                         if q.end == 'return' and r is not None and r[0] == 'tuple' and len(r[1]) == 2 and r[1][0] == r[1][1]:
                             same = True
+            differs = False
+            for k, cb in facts.bodies.items():
+                if k.startswith(b.defp + '::{closure'):
+                    for q in SymEx(cb).run():
+                        r = q.ret
+                        if q.end == 'return' and r is not None and r[0] == 'tuple' and len(r[1]) == 2 and r[1][0] != r[1][1] and 'TngKey' in sk(r):
+                            differs = True
             if same:
                 rep.ok('E7b.K3-key-tables', inst, '(k, k)')
-            else:
+            elif differs:
                 rep.violation('E7b.K3-key-tables', inst, 'the key table of an on-axis crossing no longer maps each key to itself', where=b.where())
+            else:
+                rep.indet('E7b.K3: key table of %s outside the recognised fragment' % nm)
     # K4
     b = facts.bodies.get(B + 'connect')
     if b is None:
